@@ -16,6 +16,17 @@ import "runtime"
 
 const MaxTasks = 128
 
+// ErrStepBudget is the panic value of an exhausted step budget.
+const ErrStepBudget = stepBudgetError("simrt: step budget exhausted")
+
+type stepBudgetError string
+
+func (e stepBudgetError) Error() string { return string(e) }
+
+// Woven reports whether this build contains T2 yield points (set by simbuild
+// through the generated file zz_woven.go).
+var Woven bool
+
 // Seg is one run-length element of a schedule: task T ran for N yields.
 type Seg struct {
 	T int `json:"t"`
@@ -33,6 +44,10 @@ var (
 	// Steps counts executed yield points, also when no simulation is active
 	// (deterministic logical time for single-threaded runs).
 	Steps uint64
+	// StepLimit, when non-zero, makes the yield point that takes Steps past
+	// it panic with ErrStepBudget (a load-independent stand-in for a wall-clock
+	// deadline, used by C06). It disarms itself when it fires.
+	StepLimit uint64
 
 	active  bool
 	turn    int
@@ -219,6 +234,10 @@ func pick(me int) int {
 //go:norace
 func Yield(site int) {
 	Steps++
+	if StepLimit != 0 && Steps > StepLimit {
+		StepLimit = 0
+		panic(ErrStepBudget)
+	}
 	if !active {
 		return
 	}
